@@ -79,6 +79,17 @@ theorem lookup_evalRFields (st : StructTable) (ρ : Store) (f : ForkAssign) (fld
     simp only [evalRFields, List.lookup_cons]
     cases (fld == k) <;> simp [ih]
 
+/-- `makeDisabledExp` denotes "null if the control is true, else the value" -/
+theorem evalR_mkDisabled (st : StructTable) (ρ : Store) (f : ForkAssign) (d inner : RExp) :
+    evalR st ρ f (mkDisabled d inner)
+      = if Martian.Dataflow.isTrue (evalR st ρ f d) then .null else evalR st ρ f inner := by
+  unfold mkDisabled
+  split
+  · simp [evalR]
+  · simp only [evalR, Martian.Dataflow.isTrue, beq_iff_eq]
+    split <;> simp [evalR]
+  · simp [evalR]
+
 mutual
 theorem bpR_sound (st : StructTable) (ρ : Store) (fld : String) :
     ∀ (e : RExp) (t : Ty) (f : ForkAssign), wtR st t e = true →
@@ -150,6 +161,12 @@ theorem bpR_sound (st : StructTable) (ρ : Store) (fld : String) :
       intro ix _
       simp only [Function.comp_apply]
       rw [bpR_sound st ρ fld e ⟨b, 0, k⟩ (fset f c ix) he]
+  | .disabled d v, t, f, h => by
+    simp only [wtR] at h
+    simp only [bpR, evalR_mkDisabled, evalR]
+    split
+    · simp [proj1_null]
+    · exact bpR_sound st ρ fld v t f h
 theorem bpRList_sound (st : StructTable) (ρ : Store) (fld : String) :
     ∀ (es : List RExp) (t : Ty) (f : ForkAssign), wtRList st t es = true →
       evalRList st ρ f (bpRList fld es) = (evalRList st ρ f es).map (proj1 t fld)
